@@ -278,6 +278,11 @@ def auto_discharge(world, fn, s, const_only_fns):
                     e = expr(body, defs, other)
                     if "parse" not in json.dumps(e):
                         return "ADD-SMALL: usize index/length/counter plus a small constant cannot exceed usize::MAX (allocations are <= isize::MAX)"
+    if kind in ("assert:rem_zero", "assert:div_zero") and s.get("cond") is not None:
+        c_ = expr(body, roots(body), s["cond"])          # Eq(divisor, 0), asserted false
+        if c_[0] == "bin" and c_[1] == "Eq" and any(o[0] == "const" and isinstance(o[1], int) and o[1] != 0 for o in c_[2:4]) and \
+           any(o[0] == "const" and o[1] == 0 for o in c_[2:4]):
+            return "CONST-DIVISOR: the divisor is a non-zero constant"
     if kind == "narrow_cast":
         cfg = M.Cfg(body)
         defs = roots(body)
